@@ -17,20 +17,25 @@ import vlib
 
 EXPLANATION = (
     "The formulas that decide what kind of solution a matching is (vpvmAndvpovm, the residual "
-    "closures `matching`, `tmFromvpsq`, `vpDerivNum`, and the code executed after each scipy "
-    "solver call in matchDeflagOrHyb, matchDeton, findJouguetVelocity; the template model's "
-    "closed-form vJ, detonation branch and getVp) are regenerated from the two hydrodynamics "
-    "source files by the pyrx translator. Coq proves for EVERY equation of state and every "
-    "solver output that is a zero of the generated residual: v-^2=min(vw^2,cs^2) hence "
-    "deflagration v-=vw / hybrid v-=cs(T-); detonation v+=vw, T+=Tn, and the first root above "
-    "Tn is the weak branch (v->=cs); vpDerivNum is the T- derivative of v+^2 up to a positive "
-    "factor and factorises as K(v-^2-cs^2), so the detonation at the returned vJ is sonic "
-    "(Chapman-Jouguet); template: cb<=v-<v+ above vJ, v-=cb at vJ, vJ in [cb,1). The decision "
-    "logic of fastestDeflag/slowestDeton is a hand-written model (one polymorphic definition: "
-    "Q instance compared by vm_compute with the real methods run on synthetic T+-(vw) curves; R "
-    "instance carries the theorems: result<=vJ, it is where a range is hit, every slower "
-    "(faster) wall is inside the ranges under monotonicity, flags sound). All statements are "
-    "also evaluated on the real code for the 2-step, bag and template equations of state.")
+    "closures `matching`, `tmFromvpsq`, `vpDerivNum`, the code executed after each scipy solver "
+    "call in matchDeflagOrHyb, matchDeton, findJouguetVelocity, _inverseMappingT, the bracket "
+    "orchestration of findJouguetVelocity (initial bracket, loop test and step, brentq/secant "
+    "choice, brackets handed to the solvers), the template model's closed-form vJ, detonation "
+    "branch and getVp) are regenerated from the two hydrodynamics source files by the pyrx "
+    "translator. Coq proves for EVERY equation of state and every solver output that is a zero "
+    "of the generated residual: v-^2=min(vw^2,cs^2) hence deflagration v-=vw / hybrid "
+    "v-=cs(T-), speeds in the unit interval, mapped temperatures inside the hydro window; "
+    "detonation v+=vw, T+=Tn, first root above Tn is the weak branch; vpDerivNum is the T- "
+    "derivative of v+^2 up to a positive factor and factorises as K(v-^2-cs^2), so the "
+    "detonation at the returned vJ is sonic, and a - -> + sign change makes vJ the minimum of "
+    "v+; the bracket search walks adjacent intervals and hands brentq a bracket with a sign "
+    "change; template: cb<=v-<v+ above vJ, v-=cb at vJ. The decision logic of fastestDeflag/"
+    "slowestDeton is a hand-written model (Q instance compared by vm_compute with the real "
+    "methods on synthetic curves; R instance carries the range theorems). The code's own tmSol "
+    "is recorded and certified (Interval) to be a zero of the generated vpDerivNum with the "
+    "sign change; vJ is compared with an independent Chapman-Jouguet reference also for strong "
+    "transitions with short tables and small tmax; all clauses are evaluated on the real code "
+    "for the 2-step, bag and template equations of state under several solver settings.")
 
 sys.path.insert(0, os.path.join(vlib.REPO, "tests"))
 
@@ -41,9 +46,10 @@ sys.path.insert(0, os.path.join(vlib.REPO, "tests"))
 # =======================================================================================
 
 def known_finding_replays(ctx):
-    """The two inputs recorded in known_findings.json are replayed on every run (no use of
-    ctx.rng).  Each is reported only if it still fails in exactly the recorded way; the class
-    rules are deliberately narrow so that any other failure remains a VIOLATION."""
+    """The inputs recorded in known_findings.json are replayed on every run (no use of
+    ctx.rng).  Each is reported only if it still fails in exactly the recorded way.  Elsewhere
+    a failure is attributed to a known key only through the measured mechanism rules (see
+    admissibility / vp_root_on_jump); every other clause stays active for such an input."""
     from test_Hydrodynamics import TestModelBag
     # (a) fastestDeflag raises TypeError because findMatching(vMin+vBracketLow) is (None,)*4
     try:
@@ -381,6 +387,11 @@ def eos_models(ctx):
         cb2 = round(rng.uniform(0.26, 1 / 3), 4)
         cs2 = round(rng.uniform(0.28, 1 / 3), 4)
         Tn = rng.choice([1.0, 1.0, 100.0])           # a second unit system
+        if alN <= 1.05 * (1 - psiN) / 3:
+            # not a first-order transition at Tn: the low-T phase must have the higher
+            # pressure there, p-(Tn) > p+(Tn) <=> alN > (1 - psiN)/3 (outside the quantifier)
+            ctx.count("excluded_low_phase_not_favoured")
+            continue
         if c15_template_nan_class(alN, cb2, cs2):
             # inside the quantifier, but the failure belongs to C15 (template solver NaN)
             ctx.count("excluded_C15_template_alpha_below_threshold")
@@ -1401,9 +1412,12 @@ def run(ctx):
         "below / inside / exactly at / above the curve values at the window ends, both "
         "phase-end flags, all four prior flag states) with affine or one-kink monotone "
         "dyadic curves; distinct = distinct configuration. Direct validation: 2-step toy "
-        "model (Tn grid), bag (psi, Tn), template EOS (random alN, psiN, cb2, cs2); every "
-        "matching on a vw grid from vMin to 0.99 (bucketed deflagration/hybrid/detonation); "
-        "ranges cut at random fractions of the T-(vw), T+(vw) spans")
+        "model (Tn grid), bag (psi, Tn), template EOS (random alN > (1-psiN)/3, psiN, cb2, cs2 "
+        "outside the C15 class, Tn in {1, 100}); solver settings drawn from four sets; every "
+        "matching on a vw grid from vMin+vBracketLow to 0.99 plus seeded stratified points "
+        "(bucketed deflagration/hybrid/detonation); ranges cut at random fractions of the "
+        "T-(vw), T+(vw) spans; strong family (2-step Tn<=0.45, bag psi<=0.4, template alN>=1/3) "
+        "with the low-T table cut at Tc and tmax in {1.3, 2, 10} for the Jouguet search")
     ctx.assumptions += [
         "scipy root / root_scalar / minimize_scalar return zeros of the residuals they are "
         "given (the theorems quantify over every such zero); brentq raises ValueError exactly "
